@@ -6,7 +6,7 @@
 //   - s1/chordangle.go    : ChordAngleFromSquaredLength IsInfinity isSpecial isValid Expanded Successor Predecessor
 //     MaxPointError MaxAngleError Add Sub Sin2 Cos InfChordAngle Angle ; s1/angle.go : Radians InfAngle
 //   - s2/point.go         : PointCross ChordAngleBetweenPoints ; s2/util.go : maxChordAngle minChordAngle
-//   - s2/edge_crossings.go: robustNormalWithLength projection compareEdges intersectionStableSorted intersectionStable
+//   - s2/edge_crossings.go: robustNormalWithLength projection compareEdges intersectionStableSorted canonicalEdges intersectionStable
 //     intersectionExact Intersection                                                       (C16)
 //   - s2/edge_distances.go: interiorDist updateMinDistance UpdateMinDistance IsDistanceLess UpdateMinInteriorDistance
 //     IsInteriorDistanceLess DistanceFromSegment UpdateMaxDistance Project minUpdateInteriorDistanceMaxError
@@ -1309,7 +1309,8 @@ var items = []item{
 	{"const", "s2", "intersectionError"}, {"const", "s2", "intersectionMergeRadius"}, {"const", "s2", "minNormalFloat64"},
 	{"roundingEpsilon", "s2", ""},
 	{"fn", "s2", "robustNormalWithLength"}, {"fn", "s2", "projection"}, {"fn", "s2", "compareEdges"},
-	{"fn", "s2", "intersectionStableSorted"}, {"fn", "s2", "intersectionStable"}, {"fn", "s2", "intersectionExact"},
+	{"fn", "s2", "intersectionStableSorted"}, {"fn", "s2", "canonicalEdges"}, {"fn", "s2", "intersectionStable"},
+	{"fn", "s2", "intersectionExact"},
 	{"fn", "s2", "Intersection"},
 	// s2/edge_distances.go
 	{"fn", "s2", "interiorDist"}, {"fn", "s2", "updateMinDistance"}, {"fn", "s2", "UpdateMinDistance"},
